@@ -13,19 +13,21 @@ open(p,'w').write(s)
 P
 # the trace theorems of the generic twin: same scripts; the model M5 is written with the leaves of xsync_map.go, so the
 # generic leaves are rewritten to them (Proofs.Twin: the two sets of machine-translated leaves are equal)
-sed -e 's/namespace DeepTrace/namespace DeepTraceOf/; s/end DeepTrace/end DeepTraceOf/; s/twinMapTr/twinMapOfTr/g; s/twinMap\b/twinMapOf/g; s/xsync_map\.go/xsync_mapof.go/g; s/deep_simp, \*\]/deep_simp, DeepTraceOf.ofx, DeepTraceOf.ofxw, *]/; s/simp \[deep_simp, twinMapOfTr, twinMapOf, hide/simp [deep_simp, DeepTraceOf.ofx, DeepTraceOf.ofxw, twinMapOfTr, twinMapOf, hide/g' CacheVerif/Proofs/DeepTrace.lean > CacheVerif/Proofs/DeepTraceOf.lean
+sed -e 's/namespace DeepTrace/namespace DeepTraceOf/; s/\bAgrees\b/AgreesOf/g; s/end DeepTrace/end DeepTraceOf/; s/twinMapTr/twinMapOfTr/g; s/twinMap\b/twinMapOf/g; s/xsync_map\.go/xsync_mapof.go/g; s/deep_simp, \*\]/deep_simp, DeepTraceOf.ofx, DeepTraceOf.ofxw, DeepTraceOf.ofe, *]/; s/simp \[deep_simp, twinMapOfTr, twinMapOf, hide/simp [deep_simp, DeepTraceOf.ofx, DeepTraceOf.ofxw, DeepTraceOf.ofe, twinMapOfTr, twinMapOf, hide/g' CacheVerif/Proofs/DeepTrace.lean > CacheVerif/Proofs/DeepTraceOf.lean
 python3 - <<'P'
 p='CacheVerif/Proofs/DeepTraceOf.lean'; s=open(p).read()
 s=s.replace("import CacheVerif.Proofs.DeepCache\n","import CacheVerif.Proofs.DeepCacheOf\nimport CacheVerif.Proofs.DeepTrace\n")
 import re
 s=re.sub(r"-- <shared>\n.*?-- </shared>\n", "", s, flags=re.S)
-s=s.replace('macro "trace_simp"', '''open DeepTrace
+s=s.replace("/-- the model's side and the code's side of one call", '''open DeepTrace
 
 theorem ofx (e now : Int) : Gen.itemOf_expired e now = Gen.item_expired e now := by
   simp [Gen.itemOf_expired, Gen.item_expired]
 theorem ofxw (e now : Int) : Gen.itemOf_expiredWithNow e now = Gen.item_expiredWithNow e now := by
   simp [Gen.itemOf_expiredWithNow, Gen.item_expiredWithNow]
+theorem ofe (d dflt now : Int) : Gen.expirationOf d dflt now = Gen.expiration d dflt now := by
+  simp [Gen.expirationOf, Gen.expiration]
 
-macro "trace_simp"''', 1)
+/-- the model's side and the code's side of one call''', 1)
 open(p,'w').write(s)
 P
